@@ -156,16 +156,28 @@ def run(ctx):
     ctx.log("proof ok=%s obligations=%d closed=%d" % (pa["ok"], pa["obligations"], pa["print_assumptions_closed"]))
     vlib.proof_coverage(ctx, pa)
     # the general-image stream evaluates Symlink/General.v (built on C04's Image/Fill.v and Image/Overlay.v)
-    gbad = ctx.gate(["Symlink/General.v"])
+    gbad = ctx.gate(["Symlink/General.v", "Symlink/Bridge.v"])
     if gbad:
         ctx.violation({"kind": "gate", "hits": gbad}, nofail=True)
-    rcg, outg = ctx.coq_make(["theories/Symlink/General.vo"])
+    # Symlink/Bridge.v: Fill.resolve / lookup_resolved / stat (C04's copy of the loop) = Symlink/Model.v's resolver on the
+    # same trie; theorems resolve_on_loaded_view_sound, errors_on_loaded_view_sound, target_on_loaded_view
+    for ext in (".vo", ".vok", ".vos", ".glob"):
+        try:
+            os.remove(os.path.join(vlib.COQ, "theories", "Symlink", "Bridge" + ext))
+        except FileNotFoundError:
+            pass
+    rcg, outg = ctx.coq_make(["theories/Symlink/General.vo", "theories/Symlink/Bridge.vo"])
+    ctx.coverage["bridge_theorems"] = {"file": "Symlink/Bridge.v",
+                                       "theorems": ["resolve_on_loaded_view_sound", "errors_on_loaded_view_sound", "target_on_loaded_view"],
+                                       "closed_under_global_context": outg.count("Closed under the global context"),
+                                       "compiled": rcg == 0}
     general_ok = (rcg == 0)
     if not general_ok:
         ctx.notes.append("Symlink/General.v (or Image/Fill.v, Image/Overlay.v it imports) does not compile: " + outg[-600:])
     if ctx.tier == "thorough":
         chk = ctx.coqchk(["Scalibr.Symlink.PathSeg", "Scalibr.Symlink.PathSegProofs", "Scalibr.Symlink.Model",
-                          "Scalibr.Symlink.Proofs", "Scalibr.Symlink.LoadProofs", "Scalibr.Symlink.OracleProofs", "Scalibr.Symlink.Props_C17"])
+                          "Scalibr.Symlink.Proofs", "Scalibr.Symlink.LoadProofs", "Scalibr.Symlink.OracleProofs", "Scalibr.Symlink.Props_C17"] +
+                         (["Scalibr.Symlink.General", "Scalibr.Symlink.Bridge"] if general_ok else []))
         ctx.coverage["coqchk"] = chk
         if chk["rc"] != 0:
             ctx.proof_ok = False
